@@ -21,7 +21,10 @@ def impl_batch(case):
             X = np.array([[float(Fraction(x)) for x in row] for row in it["X"]], dtype=float)
             if it.get("dtype"):
                 X = X.astype(it["dtype"])        # integer-valued (or 0/1) matrices stored in an integer / boolean array
-            dec = birkhoff_von_neumann(np.array(X))
+            elif it.get("subclass"):
+                from socialchoicekit.profile_utils import ValuationProfile
+                X = ValuationProfile.of(X)         # an ndarray subclass (a valuation profile IS a non-negative matrix)
+            dec = birkhoff_von_neumann(X.copy() if it.get("subclass") else np.array(X))
             out.append({"terms": [{"z": fr(Fraction(float(z))), "P": [[int(round(float(v))) if float(v) in (0.0, 1.0) else fr(Fraction(float(v))) for v in row] for row in Pm]}
                                   for z, Pm in dec]})
         except Exception as e:  # noqa
@@ -37,9 +40,18 @@ def rand_perm(rng, n):
 
 def gen(R, n):
     """matrix as exact rationals of floats + kind tag"""
-    kind = R.rng.choice(["dyadic", "dyadic", "uniform", "generic", "scaled_dyadic", "conic_int", "scaled_generic", "scaled_uniform", "near_equal", "zero"])
+    kind = R.rng.choice(["dyadic", "dyadic", "uniform", "generic", "scaled_dyadic", "conic_int", "scaled_generic", "scaled_uniform", "near_equal", "zero", "tiny_scaled"])
     k = R.rng.randint(1, min(6, max(1, n * n // 2)))
     perms = [rand_perm(R.rng, n) for _ in range(k)]
+    if kind == "tiny_scaled":
+        # dyadic weights in units of 2^-27 (7.5e-9) or 2^-26: entries just above the routine's own 1e-9 stop threshold
+        unit = Fraction(1, 2 ** R.rng.choice([27, 26, 25]))
+        ws = [unit * R.rng.randint(1, 8) for _ in range(k)]
+        X = [[Fraction(0)] * n for _ in range(n)]
+        for w, p in zip(ws, perms):
+            for i in range(n):
+                X[i][p[i]] += w
+        return X, kind, True
     if kind == "zero":
         # the zero matrix is balanced too (common sum 0): the decomposition is empty
         return [[Fraction(0)] * n for _ in range(n)], kind, True
@@ -253,6 +265,8 @@ def run(R):
             mx = max([x for row in X for x in row] + [Fraction(0)])
             it["dtype"] = "bool" if mx <= 1 and R.rng.random() < 0.4 else R.rng.choice(["int64", "int32"] + (["int8", "uint8"] if mx <= 100 else []))
             R.count("integer_matrix_storage:" + it["dtype"])
+        if "dtype" not in it and R.rng.random() < 0.25:
+            it["subclass"] = True
         items.append(it)
     items += eating_outputs(R, 600 if R.thorough else 60)
     run_items(R, items)
